@@ -44,6 +44,9 @@ def run(repo: Repo, tier: str, res: CheckResult, seed: int = 0) -> None:
     container_passthrough(repo, res)
     regex_guards(repo, res)
     unwrapping(repo, res)
+    recipe_specific_before_general(repo, res)
+    io_dumper_rewinds(repo, res)
+    whole_fraction_split(repo, res)
     res.assumptions = list(ASSUMPTIONS)
 
 
@@ -578,3 +581,145 @@ def unwrapping(repo: Repo, res: CheckResult) -> None:
     if not ok:
         res.add(Finding("C02", "UNWRAP.delegation", lr.rel, "LocatedRequestDelegatingProvider.get_request_handlers", norm(gh)[:200],
                         "the delegated request is the same request with only the last type replaced by the wrapped type", gh.lineno))
+
+
+# ------------------------------------------------------------------------------------------ recipe: specific before general
+# concrete classes below an abstract predicate class, with the numbers of type arguments their hints can carry
+_UNDER_ITERABLE = {"builtins.tuple": "any", "builtins.dict": {2}, "collections.defaultdict": {2}, "builtins.bytes": {0},
+                   "builtins.bytearray": {0}, "builtins.str": {0}, "builtins.list": {1}, "builtins.set": {1}, "builtins.frozenset": {1},
+                   "collections.deque": {1}}
+
+
+def _predicate_of(repo: Repo, ci: ClassInfo) -> Optional[str]:
+    for c in repo.mro(ci):
+        for d in c.node.decorator_list:
+            if isinstance(d, ast.Call) and norm(d.func).split(".")[-1] == "for_predicate" and len(d.args) == 1:
+                a = d.args[0]
+                if isinstance(a, (ast.Name, ast.Attribute)):
+                    r = repo.resolve_expr_static(c.module, a)
+                    return r.name if r.kind == "ext" else norm(a)
+                return norm(a)
+    return None
+
+
+def recipe_specific_before_general(repo: Repo, res: CheckResult) -> None:
+    """The first matching provider wins and a class predicate for an ABC matches every subclass: a provider for a concrete
+    container must stand before the provider of an abstract class above it whenever the abstract one would accept the
+    same hint. IterableProvider accepts hints with exactly one type argument (derived from its arity test) -- tuple[T] is
+    one -- so the constant-length tuple provider has to precede it; otherwise Tuple[int] loads [1, 2, 3]."""
+    m = repo.mod("morphing/facade/retort")
+    recipe = None
+    for ci in m.classes.values():
+        for st in ci.node.body:
+            if isinstance(st, ast.Assign) and any(norm(t) == "recipe" for t in st.targets) and isinstance(st.value, ast.List) \
+                    and len(st.value.elts) > 20:
+                recipe = st.value
+    if recipe is None:
+        raise AnalysisError("anchor vanished: the builtin recipe list of FilledRetort")
+    entries: List[Tuple[int, str, str, ClassInfo]] = []
+    for i, e in enumerate(recipe.elts):
+        if isinstance(e, ast.Call) and isinstance(e.func, ast.Name) and not e.args and not e.keywords:
+            r = repo.resolve_expr_static(m, e.func)
+            if r.kind == "class" and r.cls is not None:
+                pred = _predicate_of(repo, r.cls)
+                if pred is not None:
+                    entries.append((i, r.cls.name, pred, r.cls))
+    abstract = [e for e in entries if e[2] == "collections.abc.Iterable"]
+    if len(abstract) != 1:
+        raise AnalysisError(f"builtin recipe: expected one provider for collections.abc.Iterable, found {len(abstract)}")
+    gi, gname, _gp, gcls = abstract[0]
+    # arities the general provider accepts: `if len(norm.args) != N ...: raise CannotProvide`
+    accepted: Set[int] = set()
+    for fn in gcls.methods.values():
+        for c in ast.walk(fn):
+            if isinstance(c, ast.Compare) and len(c.ops) == 1 and isinstance(c.ops[0], ast.NotEq) and norm(c.left).startswith("len(") \
+                    and norm(c.left).endswith(".args)") and isinstance(c.comparators[0], ast.Constant):
+                accepted.add(c.comparators[0].value)
+    if not accepted:
+        raise AnalysisError(f"{gname}: the arity test on the normalised type was not found")
+    n = 0
+    for i, name, pred, _cls in entries:
+        ar = _UNDER_ITERABLE.get(pred)
+        if ar is None or name == gname:
+            continue
+        overlap = ar == "any" or bool(set(ar) & accepted)
+        n += 1
+        res.evaluated(f"recipe-order:{name}<{gname}", overlap)
+        if overlap and i > gi:
+            res.add(Finding("C02", "RECIPE.general-before-specific", m.rel, "FilledRetort.recipe", f"{gname}() before {name}()",
+                            f"`{gname}` (predicate {_gp}, accepts hints with {sorted(accepted)} type argument(s)) stands before `{name}` "
+                            f"(predicate {pred}) in the builtin recipe: the first match wins, so {pred.split('.')[-1]}[T] is handled as an "
+                            "iterable of unknown length -- Tuple[int] accepts [1, 2, 3] and [] and the dumper stops checking the "
+                            "length", recipe.elts[i].lineno))
+    res.count("RECIPE.specific-general-pairs", n, 3)
+
+
+def io_dumper_rewinds(repo: Repo, res: CheckResult) -> None:
+    """IO[bytes] is dumped as the base64 of its WHOLE content (documented like BytesIO): a dumper that reads a stream must
+    rewind a seekable one first, otherwise a just written file dumps as ''."""
+    m = repo.mod(CP)
+    ci = m.classes.get("IOBytesBase64Provider")
+    fn = ci.methods.get("_make_dumper") if ci is not None else None
+    if fn is None:
+        raise AnalysisError("anchor vanished: IOBytesBase64Provider._make_dumper")
+    closures = [f for f in ast.walk(fn) if isinstance(f, ast.FunctionDef) and f is not fn]
+    if len(closures) != 1:
+        raise AnalysisError("IOBytesBase64Provider._make_dumper: expected one dumper closure")
+    d = closures[0]
+    p = func_params(d)[0]
+    res.evaluated("io-dumper:rewind-before-read", True)
+    reads = [c for c in ast.walk(d) if isinstance(c, ast.Call) and isinstance(c.func, ast.Attribute) and c.func.attr in ("read", "readall", "readinto")
+             and norm(c.func.value) == p]
+    seeks = [c for c in ast.walk(d) if isinstance(c, ast.Call) and isinstance(c.func, ast.Attribute) and c.func.attr == "seek"
+             and norm(c.func.value) == p and c.args and norm(c.args[0]) == "0"]
+    for r in reads:
+        if not any(sk.lineno <= r.lineno for sk in seeks):
+            res.add(Finding("C02", "IO.read-without-rewind", m.rel, f"IOBytesBase64Provider._make_dumper.{d.name}", norm(r),
+                            f"`{norm(r)}` reads from the current position and nothing rewinds the stream before (`{p}.seek(0)`): a file "
+                            "that was just written dumps as '' and a partially read one loses its head; the documented "
+                            "representation is the base64 of the content", r.lineno))
+
+
+# ------------------------------------------------------------------------------------------ whole / fraction split of a number
+def whole_fraction_split(repo: Repo, res: CheckResult) -> None:
+    """A number x is split into a whole and a fractional part in one expression (timedelta: seconds + microseconds). The two
+    halves must come from operators that agree for negative x: (x // 1, x % 1), divmod, math.modf, (int(x), x - int(x)),
+    (math.floor(x), x % 1) for floats. int(x) / math.trunc(x) TRUNCATE while x % 1 FLOORS: int(-1.5) + (-1.5 % 1) == -0.5.
+    A fraction scaled to an integer unit must be rounded, not truncated (2.3 % 1 * 10**6 == 299999.99999999994)."""
+    m = repo.mod(CP)
+    n = 0
+    for fn in [f for f in ast.walk(m.tree) if isinstance(f, ast.FunctionDef)]:
+        ps = func_params(fn)
+        if not ps:
+            continue
+        d = ps[0]
+        for call in ast.walk(fn):
+            if not isinstance(call, ast.Call):
+                continue
+            parts = list(call.args) + [k.value for k in call.keywords]
+            mods = [p for p in parts if any(isinstance(x, ast.BinOp) and isinstance(x.op, ast.Mod) and norm(x.left) == d and norm(x.right) == "1"
+                                            for x in ast.walk(p))]
+            if not mods:
+                continue
+            wholes = [p for p in parts if p not in mods and any(isinstance(x, ast.Name) and x.id == d for x in ast.walk(p))]
+            if not wholes:
+                continue
+            n += 1
+            res.evaluated(f"split:{m.qualname(fn)}:{norm(call)[:50]}", True)
+            for w in wholes:
+                wt = norm(w)
+                floors = f"{d} // 1" in wt or f"floor({d})" in wt or f"divmod({d}" in wt
+                truncs = wt in (f"int({d})", f"math.trunc({d})", f"trunc({d})")
+                if truncs or not floors:
+                    res.add(Finding("C02", "SPLIT.trunc-with-floor-mod", m.rel, m.qualname(fn), norm(call)[:120],
+                                    f"`{wt}` truncates towards zero while `{d} % 1` is the floor remainder: for a negative datum the two "
+                                    f"parts do not add up to it (-1.5 -> -1 + 0.5 = -0.5, -0.25 -> 0 + 0.75); the documented "
+                                    "representation (seconds as a number, what the dumper emits) is not loaded back", call.lineno))
+            for p in mods:
+                pt = norm(p)
+                if pt.startswith("int(") or pt.startswith("math.trunc("):
+                    res.add(Finding("C02", "SPLIT.fraction-truncated", m.rel, m.qualname(fn), pt[:120],
+                                    f"`{pt}` truncates the scaled fraction: binary floats make 2.3 % 1 * 10**6 == 299999.99999999994, so the "
+                                    "value the dumper emitted (2.3) is loaded as 2.299999; the scaled fraction has to be rounded",
+                                    call.lineno))
+    res.count("SPLIT.sites", n, 1)
